@@ -5,9 +5,9 @@ import Operon.Gen.ChaperoneTables
 
 Property theorems only.  Model: `Operon/Model/Chaperone.lean`, tied to
 `operon_ai/organelles/chaperone.py` by the environment-recording correspondence of `harness/vf/props/c11.py`
-(the real `Chaperone` runs with recording wrappers around `json.loads`, `re.findall`, `re.sub`,
-`schema.model_validate` and `_coerce_types_tracked`; the model must make exactly the recorded calls and reach
-the same observation).
+(the library environment is evaluated by the harness on the texts that occur; the only interception is
+`model_validate` on the generated schema classes; the model must make exactly those calls and reach the same
+observation).
 
 Every statement quantifies over **every** environment `env` (any behaviour of those library functions,
 including raising any exception class), every raw text, every constructor and per-call strategy list
@@ -384,10 +384,13 @@ example : ∃ st' p, (fold toyEnv (Cfg.new []) Stats.zero rawProse []).res = .ok
 
 /-! ## Chaperone instances do not share configuration -/
 
-/-- With several Chaperones alive: editing one instance's public `strategies` list in place (remove, reverse,
-    append, clear), folding on it (which updates its counters) or creating a further instance leaves every other
-    instance exactly as it was; and a newly created default-configured instance starts with the default order
-    STRICT, EXTRACTION, LENIENT, REPAIR whatever happened to the instances before it. -/
+/-- With several Chaperones alive THAT EACH OWN THEIR LIST (built from `None`, `[]`, or a list nobody else holds — the
+    `World` model; instances built from one shared caller list are the subject of
+    `c11_constructor_keeps_a_nonempty_caller_list` / `c11_in_place_edit_reaches_exactly_the_holders` over `Heap`):
+    editing one instance's public `strategies` list in place (remove, reverse, append, clear), folding on it (which
+    updates its counters) or creating a further instance leaves every other instance exactly as it was; and a newly
+    created default-configured instance starts with the default order STRICT, EXTRACTION, LENIENT, REPAIR whatever
+    happened to the instances before it. -/
 theorem c11_instances_are_independent (w : World) (i j : Nat) (hij : j ≠ i) (t : Tune) (st : Stats)
     (ctor : List Strategy) :
     (w.tune i t)[j]? = w[j]? ∧ (w.setStats i st)[j]? = w[j]? ∧ (j < w.length → (w.create ctor)[j]? = w[j]?) ∧
@@ -478,9 +481,10 @@ theorem c11_heal_degraded_has_nothing (env : Env J S C) (cfg : Cfg) (st st' : St
 example : ∃ st' h, (heal toyEnv (Cfg.new []) Stats.zero (1 / 10) 2 (fun _ => rawBad)).res = .ok (st', h) ∧
     h.outcome = .degraded := ⟨_, _, rfl, rfl⟩
 
-/-- Through the healing loop the confidence stays in [0, 1] — the final confidence, the confidence written into
-    the returned folded protein, and the confidence of every attempt record — for every decay and every number of
-    retries; and it is 1 only for a fold that is valid through STRICT. -/
+/-- Through the healing loop the confidence stays in [0, 1] — the final confidence and the confidence written into
+    the returned folded protein — for every decay and every number of retries; it is 1 only for a fold that is valid
+    through STRICT; the confidence of every attempt record is ≥ 0, and 0 for a failed attempt (≤ 1 for a non-negative
+    decay: `c11_heal_attempt_records_at_most_one`). -/
 theorem c11_heal_confidence_unit_and_one_only_strict (env : Env J S C) (cfg : Cfg) (st st' : Stats)
     (decay : Rat) (maxRetries : Nat) (gen : Nat → Text) (h : HealOut S C)
     (hres : (heal env cfg st decay maxRetries gen).res = .ok (st', h)) :
